@@ -244,8 +244,8 @@ func (r *Run) WantSample() bool {
 	return len(r.samples) < r.maxSamples
 }
 
-func (r *Run) Assume(s string)                   { r.assume = append(r.assume, s) }
-func (r *Run) Extra(key string, v interface{})   { r.mu.Lock(); r.extra[key] = v; r.mu.Unlock() }
+func (r *Run) Assume(s string)                 { r.assume = append(r.assume, s) }
+func (r *Run) Extra(key string, v interface{}) { r.mu.Lock(); r.extra[key] = v; r.mu.Unlock() }
 func (r *Run) Inconclusive(format string, a ...interface{}) {
 	s := fmt.Sprintf(format, a...)
 	r.mu.Lock()
